@@ -64,6 +64,25 @@ theorem VFields.ofList_toList : (fs : VFields) → VFields.ofList fs.toList = fs
   | .nil => rfl
   | .cons l v rest => by simp [VFields.ofList, VFields.toList, VFields.ofList_toList rest]
 
+/-- no label occurs twice among the fields -/
+def labelsDistinct : List (Option Name × V) → Bool
+  | [] => true
+  | q :: rest =>
+    (match q.1 with
+     | none => true
+     | some n => !(rest.any (fun r => decide (r.1 = some n)))) && labelsDistinct rest
+
+mutual
+/-- well-labelled: no tuple inside the value carries the same label twice (the only values the
+language can build: `[x: 1, x: 2]` is rejected with `FieldDuplicated`). -/
+def V.wf : V → Bool
+  | .tup _ fs => labelsDistinct fs.toList && fs.wfAll
+  | _ => true
+def VFields.wfAll : VFields → Bool
+  | .nil => true
+  | .cons _ v rest => v.wf && rest.wfAll
+end
+
 /-- positional match of a tuple's declared fields against a value's fields: same length, same
 labels, each value accepted by `f` at the declared field type. -/
 def fieldsB (f : Nat → V → Bool) : List (Option Name × Nat) → VFields → Bool
